@@ -139,6 +139,7 @@ class StubSftpServer:
         self.max_outstanding = 0
         self.outstanding = 0
         self.reordered = 0
+        self.held_late = 0
         self.last_sent_seq = -1
         self.short_served = 0
         self.errors_injected = 0
@@ -217,9 +218,28 @@ class StubSftpServer:
             if extra is not None:
                 self.send(extra)
 
-        if self.policy.get('reorder'):
-            fut = self.sim.app_event('sftp-reply')
-            fut.add_done_callback(lambda f: release())
+        # 'late': [[request number, rounds], ...] -- that reply is held back
+        # for so many further scheduler rounds (other replies, and requests
+        # that depend on them, overtake it)
+        rounds = 0
+
+        for n, k in self.policy.get('late', []):
+            if n == seq:
+                rounds = k
+
+        if self.policy.get('reorder') or rounds:
+            def step(left):
+                fut = self.sim.app_event('sftp-reply')
+
+                if left > 0:
+                    fut.add_done_callback(lambda f: step(left - 1))
+                else:
+                    fut.add_done_callback(lambda f: release())
+
+            if rounds:
+                self.held_late += 1
+
+            step(rounds)
         else:
             release()
 
